@@ -937,7 +937,7 @@ func c10AddOn5(r *fw.Rec, vals []int) {
 // ---------------------------------------------------------------------------
 
 func c10(c *fw.Ctx) {
-	c.Rule("writers: seeded payloads of EAN-13/EAN-8/UPC-A/UPC-E (incl. all-0, all-9, zero-rich) and all (thorough) / 200 000 sampled (quick) UPC-E numbers and EAN-8 payloads: the bars drawn must equal the onedref pattern carrying the independent mod-10 digit (UPC-E: of the expanded number), all nine wrong supplied digits must be refused; Code 128: drawn bars parsed with the reference width table, check character == mod-103 of the drawn characters and characters spell the text; Code 93: bars == reference symbol with C and K. Readers: symbols rendered from onedref patterns (white quiet zone >= 10 modules, 2-3 px per module, 4-10 rows): the valid number (control) and every one-digit substitution carried by a well-formed symbol; sweeps at 1 row: every UPC-E symbol (2 number systems x 10^6 digit strings x 10 parity patterns) and every 8-digit EAN-8 string in thorough, stratified samples in quick; Code 128 / Code 93: every symbol-character position (start, data, check) x every other value; UPC-E expansion of all 2*10^6 numbers and expand(suppress(n)) for all numbers of the four GS1 suppression rules; add-ons: 100 EAN-2 values x 4 number-set choices on each of the four main symbologies, EAN-5 values x all 32 number-set patterns Code 39: every constructor that takes the check-digit flag (data + mod-43 check read as the data; every single-character substitution refused; without the flag all characters returned).")
+	c.Rule("writers: seeded payloads of EAN-13/EAN-8/UPC-A/UPC-E (incl. all-0, all-9, zero-rich) and all (thorough) / 200 000 sampled (quick) UPC-E numbers and EAN-8 payloads: the bars drawn must equal the onedref pattern carrying the independent mod-10 digit (UPC-E: of the expanded number), all nine wrong supplied digits must be refused; Code 128: drawn bars parsed with the reference width table, check character == mod-103 of the drawn characters and characters spell the text; Code 93: bars == reference symbol with C and K. Readers: symbols rendered from onedref patterns (white quiet zone >= 10 modules, 2-3 px per module, 4-10 rows): the valid number (control) and every one-digit substitution carried by a well-formed symbol; sweeps at 1 row: every UPC-E symbol (2 number systems x 10^6 digit strings x 10 parity patterns) and every 8-digit EAN-8 string in thorough, stratified samples in quick; Code 128 / Code 93: every symbol-character position (start, data, check) x every other value; UPC-E expansion of all 2*10^6 numbers and expand(suppress(n)) for all numbers of the four GS1 suppression rules; add-ons: 100 EAN-2 values x 4 number-set choices on each of the four main symbologies, EAN-5 values x all 32 number-set patterns Code 39: every constructor that takes the check-digit flag (data + mod-43 check read as the data; every single-character substitution refused; without the flag all characters returned). The multi-format reader under every subset and order of the four UPC/EAN formats on valid symbols of all four kinds: a returned number verifies under the format it reports. Results kept while the same reader instance reads on (valid and stale symbols) still carry their number afterwards.")
 	c.Assume("reader oracle: a number may be returned only if it is exactly the number the symbol carries and onedref says its check digit verifies; any error is accepted for every other symbol. Controls (valid reference symbols) that are not read make the case inconclusive, not failed")
 	c.Assume("UPC-E substitutions are defined on the symbol: digits 1..6 are replaced under the unchanged parity pattern, the check digit by drawing the parity pattern of the other digit, the number system by 0<->1 (the only other value a UPC-E symbol can carry): 1+54+9 = 64 per number; the oracle recomputes validity of the carried number (a sixth-digit substitution can change the zero-suppression layout onto a valid number)")
 	c.Assume("the verdict is on the matching reader. The multi-format reader (no hints) decodes the same images: returning the carried stale number itself is charged (check not enforced); a number of another format for a STALE symbol (e.g. the EAN-8 decoder reading digits 1-4 and 7-10 of a 12-digit symbol past an unanchored centre-guard search, check digit passing by chance) is charged under the signature multi-upcean:stale-symbol-read-as-number-of-other-format (every occurrence tallied as multi_*_symbol_read_*as_number_of_format_*, one event per case); UPC-A reported as EAN-13 '0'+number counts as the carried number")
@@ -1115,6 +1115,10 @@ func c10(c *fw.Ctx) {
 		c.Run(fmt.Sprintf("subst/code128/%d", i), c10SubstCode128)
 		c.Run(fmt.Sprintf("subst/code93/%d", i), c10SubstCode93)
 		c.Run(fmt.Sprintf("subst/code39/%d", i), c10SubstCode39)
+		c.Run(fmt.Sprintf("frontends/%d", i), c10FrontEnds)
+		for k := 0; k < 8; k++ {
+			c.Run(fmt.Sprintf("retained/%d/%d", i, k), c10Retained)
+		}
 	}
 
 	// --- D. expansion ---
@@ -1174,6 +1178,8 @@ func c10(c *fw.Ctx) {
 	c.Floor("code93_substitutions_refused", 50000)
 	c.Floor("code93_non_verifying_check_pairs_refused", 500)
 	c.Floor("code39_substitutions_refused", 20000)
+	c.Floor("front_end_results_verify", 2000)
+	c.Floor("retained_results_unchanged", 2000)
 	c.Floor("code39_symbols_with_check_character_read", 100)
 	c.Floor("upce_expansions_compared", 2000000)
 	c.Floor("suppressible_numbers_rule_1", 600000)
@@ -1184,4 +1190,118 @@ func c10(c *fw.Ctx) {
 	c.Floor("addon2_wrong_parity_absent", 1000)
 	c.Floor("addon5_right_parity_reported", int64(c.Pick(2000, 100000)))
 	c.Floor("addon5_values", int64(c.Pick(2000, 100000)))
+}
+
+// ---------------------------------------------------------------------------
+// F. whatever front end and whatever came before: a returned number verifies, and stays what it was
+// ---------------------------------------------------------------------------
+
+// c10VerifiesAs: does text verify as a number of the given UPC/EAN format?
+func c10VerifiesAs(f gozxing.BarcodeFormat, text string) bool {
+	for _, s := range odAllUPCEAN {
+		if s.format == f {
+			for i := 0; i < len(text); i++ {
+				if text[i] < '0' || text[i] > '9' {
+					return false
+				}
+			}
+			if s == odUPCE && (len(text) != 8 || text[0] > '1') {
+				return false
+			}
+			return s.valid(text)
+		}
+	}
+	return false
+}
+
+// c10FrontEnds: the multi-format reader under every non-empty subset of the four formats
+// (construction hints and decode hints the same, or decode hints nil), reading valid symbols of
+// all four kinds.  Whatever it makes of a symbol of a kind that was not asked for, a returned
+// result must verify under the format it reports.
+func c10FrontEnds(r *fw.Rec) {
+	rng := r.Rng
+	for rep := 0; rep < 40; rep++ {
+		mask := 1 + rng.Intn(15)
+		var fs []gozxing.BarcodeFormat
+		for i, s := range odAllUPCEAN {
+			if mask>>uint(i)&1 == 1 {
+				fs = append(fs, s.format)
+			}
+		}
+		for i, j := range rng.Perm(len(fs)) {
+			if i < j {
+				fs[i], fs[j] = fs[j], fs[i]
+			}
+		}
+		hints := map[gozxing.DecodeHintType]interface{}{gozxing.DecodeHintType_POSSIBLE_FORMATS: fs}
+		rd := oned.NewMultiFormatUPCEANReader(hints)
+		dh := hints
+		if rng.Intn(3) == 0 {
+			dh = nil
+		}
+		for _, s := range odAllUPCEAN {
+			payload := s.randPayload(rng)
+			if s == odUPCE {
+				payload = string(byte('0'+rng.Intn(2))) + payload[1:]
+			}
+			full := s.full(payload)
+			scale, height, quiet := 1+rng.Intn(2), 1+rng.Intn(3), 10+rng.Intn(6)
+			res, err := odDecode(rd, odRender(s.pattern(full), quiet, quiet, scale, height), dh)
+			r.Evals(1)
+			if err != nil {
+				r.Tally("front_end_symbol_of_unrequested_kind_refused_or_not_found")
+				continue
+			}
+			if !c10VerifiesAs(res.GetBarcodeFormat(), res.GetText()) {
+				r.Violation("model-mismatch", "multi-upcean:returned-number-does-not-verify", fmt.Sprintf("multi-format reader for %v (decode hints %v) read the %s symbol %s as %s/%v, which does not verify as a %v number", fs, dh != nil, s.name, full, res.GetText(), res.GetBarcodeFormat(), res.GetBarcodeFormat()),
+					map[string]interface{}{"possible_formats": fmt.Sprint(fs), "decode_hints_given": dh != nil, "symbol_kind": s.name, "symbol": full, "returned": res.GetText(), "returned_format": res.GetBarcodeFormat().String()})
+				return
+			}
+			r.Tally("front_end_results_verify")
+		}
+	}
+	r.Nontrivial(fmt.Sprintf("frontends/%d", rng.Uint64()))
+}
+
+// c10Retained: results handed out earlier are kept while the same reader instance goes on
+// reading (valid symbols, and symbols with a stale check digit that it must refuse); at the end
+// every kept result still carries its number and still verifies.
+func c10Retained(r *fw.Rec) {
+	rng := r.Rng
+	s := odAllUPCEAN[rng.Intn(len(odAllUPCEAN))]
+	rd := s.reader()
+	if rng.Intn(3) == 0 {
+		rd = oned.NewMultiFormatUPCEANReader(map[gozxing.DecodeHintType]interface{}{gozxing.DecodeHintType_POSSIBLE_FORMATS: []gozxing.BarcodeFormat{s.format}})
+	}
+	type kept struct {
+		res  *gozxing.Result
+		want string
+	}
+	var keep []kept
+	for i := 0; i < 12; i++ {
+		payload := s.randPayload(rng)
+		if s == odUPCE {
+			payload = string(byte('0'+rng.Intn(2))) + payload[1:]
+		}
+		full := s.full(payload)
+		stale := i%2 == 1
+		shown := full
+		if stale {
+			shown = payload + string(rune('0'+(s.check(payload)+1+rng.Intn(9))%10))
+		}
+		res, err := odDecode(rd, odRender(s.pattern(shown), 12, 12, 1+rng.Intn(2), 1+rng.Intn(3)), nil)
+		r.Evals(1)
+		if !stale && err == nil && res.GetText() == full {
+			keep = append(keep, kept{res, full})
+		}
+	}
+	for _, k := range keep {
+		if k.res.GetText() != k.want || !c10VerifiesAs(k.res.GetBarcodeFormat(), k.res.GetText()) {
+			r.Violation("model-mismatch", "upcean:result-changed-after-later-reads", fmt.Sprintf("%s reader: a result returned as %s reads %s after the same reader instance decoded further symbols", s.name, k.want, k.res.GetText()),
+				map[string]interface{}{"symbology": s.name, "returned_as": k.want, "now": k.res.GetText()})
+			return
+		}
+		r.Tally("retained_results_unchanged")
+	}
+	r.Nontrivial(fmt.Sprintf("retained/%s/%d", s.name, rng.Uint64()))
 }
